@@ -741,9 +741,8 @@ def d5c_raw_text(chk: Check) -> None:
             src(c.args[0]) != sec and
             any(isinstance(a, (ast.List, ast.Tuple, ast.Set))
                 for a in ancestors(c))]
-    if not strs:
-        raise AnalysisError("separator entry of the escape alphabet not "
-                            "found")
+    # (no separator entry at all is C02-D5's finding; the floor of this
+    # rule applies only when nothing else reports)
     bad = [c for c in strs if src(c.args[0]) != sep]
     if bad:
         chk.fail("C02-D5d", fi, bad[0], "alphabet entry `{}`".format(
@@ -755,8 +754,9 @@ def d5c_raw_text(chk: Check) -> None:
             "segments and every path below it inherits the error".format(
                 src(bad[0].args[0]), sep))
         return
-    chk.ok("C02-D5d", fi, strs[0], "alphabet entry `{}`".format(
-        src(strs[0])), "the caller's separator as given")
+    if strs:
+        chk.ok("C02-D5d", fi, strs[0], "alphabet entry `{}`".format(
+            src(strs[0])), "the caller's separator as given")
     pe = PEval()
     for raw, sp, want in RAW_SAMPLES:
         env = {sec: Const(raw), "str({})".format(sec): Const(raw),
